@@ -18,7 +18,7 @@ COMPONENTS = {
 def uncaught_violations(prop, sim):
     out = []
     for u in sim.uncaught:
-        if u["kind"] != "actor":
+        if u["kind"] != "actor" and "scripted emitter failure" not in u["msg"]:
             fn = u["where"][-1][2] if u["where"] else "?"
             out.append(Violation("uncaught", f"{prop}:uncaught:{u['task'].split('#')[0]}:{u['exc']}:{fn}", str(u)))
     return out
